@@ -62,6 +62,8 @@ def run_one(patch, props, verify_tests, all_props):
 def main():
     ap = argparse.ArgumentParser()
     ap.add_argument("--seeded", action="store_true")
+    ap.add_argument("--controls", action="store_true",
+                    help="behaviour-preserving refactorings under /verif/controls: no check may fire")
     ap.add_argument("--verify-tests", action="store_true")
     ap.add_argument("--all-props", action="store_true", help="also run every other property's check")
     ap.add_argument("--only", default=None)
@@ -69,7 +71,13 @@ def main():
     ap.add_argument("--json", default=None)
     args = ap.parse_args()
     items = []
-    if args.seeded:
+    if args.controls:
+        args.all_props = True
+        for d in sorted(glob.glob(os.path.join(VERIF, "controls", "*"))):
+            patch = os.path.join(d, "patch.diff")
+            if os.path.exists(patch):
+                items.append((patch, []))
+    elif args.seeded:
         for d in sorted(glob.glob(os.path.join(VERIF, "seeded", "*"))):
             meta = os.path.join(d, "meta.json")
             patch = os.path.join(d, "patch.diff")
@@ -91,10 +99,18 @@ def main():
             results.append(r)
             fired = {k: (v["exit"] == 1) for k, v in r["fired"].items()}
             status = "OK " if r["applied"] and fired and all(fired.values()) else "MISS"
+            if args.controls:
+                status = "OK " if r["applied"] and not r["others"] else "FALSE-ALARM"
             if not r["applied"]:
                 status = "SKIP"
             print("%s %-70s tests=%s fired=%s%s" % (status, r["mutant"][:70], r["tests"], fired,
                                                    " also:%s" % sorted(r["others"]) if r["others"] else ""))
+            if status == "FALSE-ALARM":
+                for k, v in r["others"].items():
+                    for vv in v["violations"][:4]:
+                        print("      %s: %s" % (k, vv[:230]))
+                    if v["exit"] == 2:
+                        print("      %s infra: %s" % (k, v.get("infra", "")[-200:].replace("\n", " ")))
             if status == "MISS":
                 for k, v in r["fired"].items():
                     if v["exit"] == 2:
